@@ -272,7 +272,14 @@ func divFormOf(v ssa.Value) (kind divKind, num, den ssa.Value) {
 			rets := returnsOf(h)
 			if len(rets) == 1 {
 				if res := retResults(rets[0]); len(res) == 1 {
-					k, n, d := divFormOf(res[0])
+					rv := res[0]
+					// int((uint64(size) + K - 1) / K): the quotient converted to the result type
+					if cv, isCv := rv.(*ssa.Convert); isCv {
+						if qb, isQ := cv.X.(*ssa.BinOp); isQ && (qb.Op == token.QUO || qb.Op == token.SHR) {
+							rv = qb
+						}
+					}
+					k, n, d := divFormOf(rv)
 					back := func(x ssa.Value) ssa.Value {
 						if x == nil {
 							return nil
